@@ -243,3 +243,69 @@ Proof.
       it_lock, it_acc, it_lock_after_time;
     try (destruct (t <? s_now s)); q_ok I; eexists; (split; [reflexivity|]); rewrite ?map_app; congruence.
 Qed.
+
+(* ------------------------------------------------------------------ composite queries as filters of the lock table *)
+Lemma NoDup_app_disjoint : forall (a b : list Z), NoDup a -> NoDup b -> (forall x, In x a -> In x b -> False) -> NoDup (a ++ b).
+Proof.
+  induction a as [|x r IH]; cbn; intros b Ha Hb Hd; [assumption|].
+  inversion Ha; subst. constructor.
+  - rewrite in_app_iff. intros [H|H]; [contradiction|]. apply (Hd x); [left; reflexivity|assumption].
+  - apply IH; [assumption|assumption|]. intros y Hy. apply Hd. right; assumption.
+Qed.
+
+(* the concatenation of a not-unlocking and an unlocking iterator (in either order): each matching lock exactly once *)
+Lemma concat_exact : forall s u1 k1 a1 d1 p1 k2 a2 d2 p2, Inv s ->
+  let ids := iterate (s_refs s) u1 k1 a1 d1 p1 ++ iterate (s_refs s) (negb u1) k2 a2 d2 p2 in
+  NoDup ids /\
+  forall id, In id ids <-> In id (map l_id (filter (fun l => matches u1 k1 a1 d1 p1 l || matches (negb u1) k2 a2 d2 p2 l) (s_locks s))).
+Proof.
+  intros s u1 k1 a1 d1 p1 k2 a2 d2 p2 I ids. subst ids.
+  destruct (iterate_exact s u1 k1 a1 d1 p1 I) as [X1 N1]. destruct (iterate_exact s (negb u1) k2 a2 d2 p2 I) as [X2 N2]. split.
+  - apply NoDup_app_disjoint; [assumption|assumption|]. intros x H1 H2. apply X1 in H1. apply X2 in H2.
+    apply in_map_iff in H1, H2. destruct H1 as [l1 [E1 F1]], H2 as [l2 [E2 F2]]. apply filter_In in F1, F2.
+    destruct F1 as [In1 M1], F2 as [In2 M2].
+    assert (l1 = l2).
+    { pose proof (In_get_lock _ _ (i_nodup _ _ (inv0 _ I)) In1) as G1. pose proof (In_get_lock _ _ (i_nodup _ _ (inv0 _ I)) In2) as G2.
+      rewrite E1 in G1. rewrite E2 in G2. congruence. }
+    subst l2. apply matches_iff in M1, M2. destruct M1 as [U1 _], M2 as [U2 _]. rewrite U1 in U2. destruct u1; discriminate.
+  - intros id. rewrite in_app_iff, X1, X2, !in_map_iff. split.
+    + intros [[l [E F]]|[l [E F]]]; apply filter_In in F; destruct F as [Hin M]; exists l; (split; [assumption|]); apply filter_In;
+        (split; [assumption|]); rewrite M; [reflexivity|apply orb_true_r].
+    + intros [l [E F]]. apply filter_In in F. destruct F as [Hin M]. apply orb_true_iff in M.
+      destruct M as [M|M]; [left|right]; exists l; (split; [assumption|]); apply filter_In; auto.
+Qed.
+
+(* GetLocksLongerThanDurationDenom (the query the module's own accumulation invariant uses): exactly the live locks of the denomination
+   with duration >= d, each once *)
+Lemma locks_longer_than_duration_denom_exact : forall s dn d, Inv s ->
+  exists ls, q_locks_longer_than_duration_denom s dn d = Ok ls /\ NoDup (map l_id ls) /\
+  forall l, In l ls <-> In l (s_locks s) /\ l_denom l = dn /\ dur_key d <= dur_key (l_dur l).
+Proof.
+  intros s dn d I. destruct (store_queries_ok s 0 dn d 0 I) as [_ [_ [_ [_ [_ [_ [_ [_ [[ls [E M]] _]]]]]]]]].
+  exists ls. split; [assumption|]. unfold it_lock_longer_duration_denom in M.
+  destruct (concat_exact s false KDenomDur 0 dn (p_longer d) KDenomDur 0 dn (p_longer d) I) as [ND X]. cbn [negb] in ND, X.
+  rewrite <- M in ND, X. split; [assumption|].
+  assert (Hls : forall l, In l ls -> In l (s_locks s)).
+  { unfold q_locks_longer_than_duration_denom, bind in E. mon E. injection E as <-.
+    assert (K : forall ids out, locks_of_ids s ids = Ok out -> forall l, In l out -> In l (s_locks s)).
+    { induction ids as [|i r IH]; cbn [locks_of_ids]; intros out H l Hl; [injection H as <-; destruct Hl|].
+      unfold bind in H. mon H. injection H as <-. destruct Hl as [<-|Hl]; [apply get_lock_In in E; tauto|eapply IH; [reflexivity|assumption]]. }
+    intros l Hl. apply in_app_iff in Hl. destruct Hl as [Hl|Hl]; [apply (K _ _ E1)|apply (K _ _ E0)]; assumption. }
+  intros l. split.
+  - intros Hl. split; [auto|]. assert (Hid : In (l_id l) (map l_id ls)) by (apply in_map; assumption).
+    apply X in Hid. apply in_map_iff in Hid. destruct Hid as [l' [E' F]]. apply filter_In in F. destruct F as [Hin' Mt].
+    assert (l' = l).
+    { pose proof (In_get_lock _ _ (i_nodup _ _ (inv0 _ I)) Hin') as G1. pose proof (In_get_lock _ _ (i_nodup _ _ (inv0 _ I)) (Hls _ Hl)) as G2.
+      rewrite E' in G1. congruence. }
+    subst l'. apply orb_true_iff in Mt. destruct Mt as [Mt|Mt]; apply matches_iff in Mt; cbn in Mt; destruct Mt as [_ [_ [_ [Md Mp]]]];
+      (split; [assumption|apply Z.leb_le; assumption]).
+  - intros [Hin [Hd Hp]].
+    assert (Hid : In (l_id l) (map l_id ls)).
+    { apply X. apply in_map. apply filter_In. split; [assumption|]. apply orb_true_iff.
+      destruct (is_unlocking l) eqn:U; [right|left]; apply matches_iff; cbn; (repeat split; auto; try discriminate); apply Z.leb_le; assumption. }
+    apply in_map_iff in Hid. destruct Hid as [l' [E' Hl']].
+    assert (l' = l).
+    { pose proof (In_get_lock _ _ (i_nodup _ _ (inv0 _ I)) (Hls _ Hl')) as G1. pose proof (In_get_lock _ _ (i_nodup _ _ (inv0 _ I)) Hin) as G2.
+      rewrite E' in G1. congruence. }
+    subst l'. assumption.
+Qed.
